@@ -226,6 +226,19 @@ instance (x y : F) : Decidable (fge x y) := inferInstanceAs (Decidable (_ = true
 instance (x y : F) : Decidable (feq x y) := inferInstanceAs (Decidable (_ = true))
 instance (x y : F) : Decidable (fne x y) := inferInstanceAs (Decidable (_ = false))
 
+@[simp] theorem decide_flt (x y : F) : decide (flt x y) = FloatOps.lt x y := by
+  show decide (FloatOps.lt x y = true) = _; cases FloatOps.lt x y <;> rfl
+@[simp] theorem decide_fgt (x y : F) : decide (fgt x y) = FloatOps.lt y x := by
+  show decide (FloatOps.lt y x = true) = _; cases FloatOps.lt y x <;> rfl
+@[simp] theorem decide_fle (x y : F) : decide (fle x y) = FloatOps.le x y := by
+  show decide (FloatOps.le x y = true) = _; cases FloatOps.le x y <;> rfl
+@[simp] theorem decide_fge (x y : F) : decide (fge x y) = FloatOps.le y x := by
+  show decide (FloatOps.le y x = true) = _; cases FloatOps.le y x <;> rfl
+@[simp] theorem decide_feq (x y : F) : decide (feq x y) = FloatOps.eq x y := by
+  show decide (FloatOps.eq x y = true) = _; cases FloatOps.eq x y <;> rfl
+@[simp] theorem decide_fne (x y : F) : decide (fne x y) = !FloatOps.eq x y := by
+  show decide (FloatOps.eq x y = false) = _; cases FloatOps.eq x y <;> rfl
+
 end
 
 /-- engine.Number -/
